@@ -104,3 +104,16 @@ func (r *Rand) U33() uint64 {
 	}
 	return r.Uint64() & (1<<33 - 1)
 }
+
+// PickBytes4 returns a random 4-byte identifier, sometimes a near miss of "DOVI".
+func (r *Rand) PickBytes4() []byte {
+	switch r.Intn(4) {
+	case 0:
+		return []byte("DOVJ")
+	case 1:
+		return []byte("dovi")
+	case 2:
+		return []byte("CUEI")
+	}
+	return r.Bytes(4)
+}
